@@ -77,7 +77,9 @@ Section PipelineRefs.
     forall i r r' org row fs flags cands j b b2 a t0 s old,
       nth_error m1 i = Some r -> nth_error m2 i = Some r' -> org_id pipe_cs r = Ok org ->
       In row rules -> In fs (nb_referrers row) -> gvk_is_selected (id_gvk org) (fs_gvk fs) = true ->
-      has_suffix "roleRef/name" (fs_path fs) = false ->
+      roleref_sieve (make_ctx pipe_cs r (fs_path fs) (nb_gvk row)) b = true ->
+      (has_suffix "roleRef/name" (fs_path fs) = false \/
+       exists g, roleref_gvk (r_node r) = Some g /\ external C (g_group g) /\ external C (g_kind g)) ->
       referencable pipe_cs m1 r = Ok flags -> mapM (view pipe_cs) (select_by flags m1) = Ok cands ->
       no_ns_key a -> match a with AKey k :: _ => k <> "metadata" | _ => False end ->
       reaches (path_splitter (fs_path fs)) a (r_node r) = true ->
@@ -91,10 +93,10 @@ Section PipelineRefs.
         get_addr a (strip_node (r_node r')) = Some (Scalar t' s' (get_name (strip_node (r_node b2)))).
   Proof.
     intros _ _ ER EN HC Hne i r r' org row fs flags cands j b b2 a t0 s old.
-    intros Hr Hr' Horg Hrow Hfs Hsel Hnr Hflags Hcands Hns Hroot Hreach Hg Hnn Hb Hb2 Hu Hvis Hc1 Hc2.
+    intros Hr Hr' Horg Hrow Hfs Hsel Hnr1 Hnr2 Hflags Hcands Hns Hroot Hreach Hg Hnn Hb Hb2 Hu Hvis Hc1 Hc2.
     rewrite pipe_rules_eq in ER.
     destruct (gen_refs_follow_transform pipe_cs nonstr rules m1 m2 C ER HC Hne EN
-                i r r' org row fs flags cands b a t0 s old Hr Hr' Horg Hrow Hfs Hsel Hnr Hflags Hcands
+                i r r' org row fs flags cands b a t0 s old Hr Hr' Horg Hrow Hfs Hsel Hnr1 Hnr2 Hflags Hcands
                 Hns Hreach Hg Hnn Hu Hvis Hc1 Hc2) as (t' & s' & Hfield).
     exists t', s'. rewrite strip_node_other_root by exact Hroot. rewrite Hfield.
     (* the referent's emitted name is its name before FixBackReferences *)
